@@ -166,23 +166,24 @@ func ParseCaddyfileNestedMatcherSet(d *caddyfile.Dispenser) (caddy.ModuleMap, er
 	}
 
 	for matcherName, tokens := range tokensByMatcherName {
+		// every line of this matcher is a segment of its own: hand all of them on
+		// (the unmarshalers loop over the segments they are given)
 		dd := caddyfile.NewDispenser(tokens)
-		dd.Next() // consume wrapper name
 		// TODO: delete this workaround when the corresponding matchers implement caddyfile.Unmarshaler interface
 		if matcherName == "local_ip" {
-			cm, err := unmarshalCaddyfileMatchLocalIP(dd.NewFromNextSegment())
+			cm, err := unmarshalCaddyfileMatchLocalIP(dd)
 			if err != nil {
 				return nil, err
 			}
 			matcherMap[matcherName] = cm
 		} else if matcherName == "remote_ip" {
-			cm, err := unmarshalCaddyfileMatchRemoteIP(dd.NewFromNextSegment())
+			cm, err := unmarshalCaddyfileMatchRemoteIP(dd)
 			if err != nil {
 				return nil, err
 			}
 			matcherMap[matcherName] = cm
 		} else if matcherName == "sni" {
-			cm, err := unmarshalCaddyfileMatchServerName(dd.NewFromNextSegment())
+			cm, err := unmarshalCaddyfileMatchServerName(dd)
 			if err != nil {
 				return nil, err
 			}
@@ -196,7 +197,7 @@ func ParseCaddyfileNestedMatcherSet(d *caddyfile.Dispenser) (caddy.ModuleMap, er
 			if !ok {
 				return nil, d.Errf("matcher module '%s' is not a Caddyfile unmarshaler", matcherName)
 			}
-			err = unm.UnmarshalCaddyfile(dd.NewFromNextSegment())
+			err = unm.UnmarshalCaddyfile(dd)
 			if err != nil {
 				return nil, err
 			}
